@@ -70,6 +70,14 @@ impl Process {
         })
     }
 
+    /// the lock that serialises the pieces of work done on this process: client actions,
+    /// the scheduler's execution of its tasks and the timeout tick
+    pub(crate) fn lock(&self) -> std::sync::MutexGuard<'_, ()> {
+        self.action_lock
+            .lock()
+            .unwrap_or_else(|err| err.into_inner())
+    }
+
     pub fn data(&self) -> Vars {
         if let Some(root) = self.root() {
             return root.data();
@@ -260,6 +268,7 @@ impl Process {
     }
 
     pub(crate) fn do_tick(&self) {
+        let _guard = self.lock();
         self.find_tasks(|t| t.hooks().contains_key(&TaskLifeCycle::Timeout))
             .iter()
             .for_each(|t| {
@@ -275,10 +284,7 @@ impl Process {
     pub fn do_action(self: &Arc<Self>, action: &Action) -> Result<()> {
         // one client action at a time per process: the state check of an action and the
         // changes it makes must not interleave with another action on the same process
-        let _guard = self
-            .action_lock
-            .lock()
-            .unwrap_or_else(|err| err.into_inner());
+        let _guard = self.lock();
         let mut action = action.clone();
         let task = self.task(&action.tid).ok_or(ActError::Action(format!(
             "cannot find task by '{}' tasks={:?}",
